@@ -244,6 +244,16 @@ func TestC05(t *testing.T) {
 		if oddAKI {
 			w.LeafSpec.AKI = []byte{0xc1, 0xc2, 0xc3, 0xc4, 0xc5, 0xc6, 0xc7, 0xc8, 0xc9, 0xca, 0xcb, 0xcc, 0xcd, 0xce, 0xcf, 0xd0, 0xd1, 0xd2, 0xd3, 0xd4}
 		}
+		// the relying party's bundle may hold more than the root: the whole chain (root and issuing CA), or the signer of
+		// the TCB documents too. Revocation is a statement about the certificates the quote and the collateral carry.
+		switch rapid.SampledFrom([]string{"root", "root", "root", "chain", "chain", "everything"}).Draw(t, "trustedBundleLists") {
+		case "chain":
+			w.PoolExtra = []*gen.Cert{p.Int}
+			gen.Class("pool:also-lists-the-issuing-ca")
+		case "everything":
+			w.PoolExtra = []*gen.Cert{p.TcbSig, p.Int}
+			gen.Class("pool:also-lists-the-issuing-ca")
+		}
 		pastTimes := false
 		switch rapid.IntRange(0, 4).Draw(t, "defaultTimeSet") {
 		case 0:
@@ -542,13 +552,21 @@ func TestC05(t *testing.T) {
 			sw.cur = o.Getter
 			o.Getter = retry
 		}
+		prehist := ""
+		if !throughRetry {
+			pk := prehistoryKind(w.Raw)
+			rp["prehistory"] = pk
+			if prehist = optionsPrehistory(w.Raw, o, pk, nil); prehist != "" {
+				gen.Class("options-value-used-before")
+			}
+		}
 		gen.Eval()
 		v := gen.Call(func() error { return verify.RawTdxQuote(w.Raw, o) })
 		if v.Panicked() {
 			gen.Fail(t, gen.Violation{Key: "panic@" + gen.PanicSite(v.Stack), Oracle: "verification returns a verdict", Detail: v.Panic, Replay: rp})
 			return
 		}
-		desc := fmt.Sprintf("pck{%s,%s,hdr=%s,lists=%v} root{%s,dps(outcome,alternative-list)=%v,lists=%v} qeSignerSharesKey=%v history=%s", pck.signer, pck.outcome, pck.header, keysOf(pck.contains), root.signer, fmt.Sprint(dpOutcome, dpAlt), keysOf(root.contains), qeSameKey, history)
+		desc := fmt.Sprintf("pck{%s,%s,hdr=%s,lists=%v} root{%s,dps(outcome,alternative-list)=%v,lists=%v} qeSignerSharesKey=%v history=%s %s", pck.signer, pck.outcome, pck.header, keysOf(pck.contains), root.signer, fmt.Sprint(dpOutcome, dpAlt), keysOf(root.contains), qeSameKey, history, prehist)
 		if reject != "" && v.Accepted() {
 			gen.Fail(t, gen.Violation{Key: "accepts-despite:" + keyClass(reject), Oracle: "with revocation on, accepted only if both CRLs were obtained and authenticated and none of the four serials is listed", Detail: desc + ": " + reject, Replay: rp})
 			return
